@@ -296,6 +296,32 @@ pub fn diff_features(diff: &str) -> BTreeMap<String, String> {
         .collect()
 }
 
+/// Known defect class 3: `-` and `+` lines of a change group are paired by position; a deleted
+/// (or added) content line of a block that is paired with a line of another kind (a tag-comment
+/// line, an outside line, content of another block) is then treated as a modification of that
+/// other line and the content change is lost. Returns the files in which some positional pair has
+/// sides of different classes, at least one of them being content.
+pub fn files_with_cross_boundary_pairing(base: &[LFile], new: &[LFile], diffs: &[FileDiff]) -> Vec<String> {
+    let mut out = Vec::new();
+    for (fi, nf) in new.iter().enumerate() {
+        let Some(fd) = diffs.iter().find(|d| d.new_path.as_deref() == Some(nf.name)) else { continue };
+        let bf = &base[fi];
+        let hit = fd.groups.iter().any(|(minus, plus)| {
+            minus.iter().zip(plus).any(|(&o, &n)| {
+                if o == 0 || o > bf.lines.len() || n == 0 || n > nf.lines.len() {
+                    return false;
+                }
+                let (a, b) = (bf.line_class(o), nf.line_class(n));
+                a != b && (a.starts_with("content") || b.starts_with("content"))
+            })
+        });
+        if hit {
+            out.push(nf.name.to_string());
+        }
+    }
+    out
+}
+
 /// Narrow classes of the diff content, used to fingerprint rejections.
 fn diff_rejection_class(diff: &str) -> &'static str {
     let body_line = |prefix: &str| diff.lines().any(|l| l.starts_with(prefix));
@@ -318,7 +344,8 @@ pub fn judge(t: &Template, new: &[LFile], diff: &str, context: usize, input: &Va
     };
     let expect = expectations(&t.files, new, &parsed);
     let features = diff_features(diff);
-    let class = |file: &str| features.get(file).cloned().unwrap_or_default();
+    let mispaired = files_with_cross_boundary_pairing(&t.files, new, &parsed);
+    let class = |file: &str| format!("{}{}", features.get(file).cloned().unwrap_or_default(), if mispaired.iter().any(|f| f == file) { ":paired-across-block-boundary" } else { "" });
     let files: Vec<(String, String)> = new.iter().map(|f| (f.name.to_string(), f.text())).collect();
     let describe = |extra: &str| format!("{} -U{context}: {extra}\n--- diff ---\n{diff}", t.name);
     for with_glob in [true, false] {
@@ -579,7 +606,8 @@ fn modes_case(cfg: &Cfg, t: &Template, ti: usize, s: &State, sink: &Sink) {
             };
             let expect = expectations(&base, &new_files, &parsed);
             let features = diff_features(&diff);
-            let class = |file: &str| features.get(file).cloned().unwrap_or_default();
+            let mispaired = files_with_cross_boundary_pairing(&base, &new_files, &parsed);
+            let class = |file: &str| format!("{}{}", features.get(file).cloned().unwrap_or_default(), if mispaired.iter().any(|f| f == file) { ":paired-across-block-boundary" } else { "" });
             sink.execs(2);
             let list = cli::blockwatch(&cfg.bin, &repo.dir, &["list", "**"], Some(&diff), &[], 20);
             let check = cli::blockwatch(&cfg.bin, &repo.dir, &[], Some(&diff), &[], 20);
